@@ -21,7 +21,7 @@ func init() {
 		"bytes to the real http.Handler + responders over the journalled store; compared per request with the Lean server model: "+
 		"response type, effects (AddVoucher, SetRVBlob, owner-module invocation, ReplaceVoucher with the session they are "+
 		"attributed to) and liveness of every token; independent oracles on the implementation alone: effects only under the "+
-		"request's own live token, in-order history before an effect, token dead after final message or error; distinct = sequences", c08)
+		"request's own live token, in-order history before an effect, token dead after final message or error; the literal bytes of accepted OwnerSign messages sent again under other tokens; distinct = sequences", c08)
 }
 
 type c08Sess struct {
